@@ -175,7 +175,8 @@ pub struct ListCase {
 
 fn list_strategy(_: &Ctx) -> BoxedStrategy<ListCase> {
     let wire = |max: usize| gen::from_alphabet("abcdefghijklmnopqrstuvwxyzABCDEFGHIJKLMNOPQRSTUVWXYZ0123456789:/._-?=&% ", 0, max);
-    let hash = prop_oneof![4 => gen::from_alphabet("0123456789abcdef", 40, 40), 1 => gen::from_alphabet("0123456789abcdef", 0, 8)];
+    // hashes are text on the wire: lower-case hex as retail sends it, upper-case and mixed-case hex, short ones
+    let hash = prop_oneof![8 => gen::from_alphabet("0123456789abcdef", 40, 40), 2 => gen::from_alphabet("0123456789abcdef", 0, 8), 1 => gen::from_alphabet("0123456789ABCDEF", 40, 40), 1 => gen::from_alphabet("0123456789abcdefABCDEF", 40, 40)];
     let size = prop_oneof![3 => 0i64..100_000_000_000, 1 => 0i64..=i64::MAX, 1 => prop::sample::select(vec![0i64, 1, i64::MAX, 1 << 32, (1 << 53) + 1])];
     // one URL in sixty is long (around 4 KiB / 8 KiB / 64 KiB); one hash list in forty has 60..200 hashes
     // a third of the URLs have the shape of the real ones: host, boot / game, an expansion segment or none, a hash, a file name
